@@ -15,7 +15,7 @@ from .. import ast as A, gen, values as V, campaign, tracer, universes as U
 from . import common
 
 LEVEL = "model_checking"
-CLAUSES = ("C17.pure", "C17.entry", "C17.frozen", "C17.offset")
+CLAUSES = ("C17.pure", "C17.entry", "C17.frozen", "C17.offset", "C04.equiv")
 
 def digest(objs):
     "structural digest of the object graphs (attributes recursively; functions by identity)"
@@ -118,11 +118,15 @@ def run(ctx):
                 if c is not None:
                     objs.append((p, c))
             # structurally identical constructs differing only in a Python callback; compiled instances join the pool
-            lam1 = cs.Struct("count" / cs.Rebuild(cs.Byte, lambda ctx: len(ctx["items"])), "items" / cs.Array(cs.this.count, cs.Byte))
-            lam2 = cs.Struct("count" / cs.Rebuild(cs.Byte, lambda ctx: len(ctx["items"]) - 1), "items" / cs.Array(cs.this.count, cs.Byte))
+            lam1 = cs.Struct("count" / cs.Rebuild(cs.Byte, lambda ctx: len(ctx["items"])), "tag" / cs.Rebuild(cs.Byte, lambda ctx: 1), "items" / cs.Array(cs.this.count, cs.Byte))
+            lam2 = cs.Struct("count" / cs.Rebuild(cs.Byte, lambda ctx: len(ctx["items"])), "tag" / cs.Rebuild(cs.Byte, lambda ctx: 2), "items" / cs.Array(cs.this.count, cs.Byte))
             opq = lambda d: {"k": "Opaque", "desc": d}
-            extra = [(opq("lam1"), lam1), (opq("lam2"), lam2)]
-            allobjs = [c for _, c in objs] + [lam1, lam2]
+            # adapters that rearrange lists (not in the program AST): a failing build must leave no trace on the instance
+            slicing = cs.Slicing(cs.Array(4, cs.Byte), 4, 1, 3, empty=0)
+            indexing = cs.Indexing(cs.Array(4, cs.Byte), 4, 2, empty=0)
+            extra = [(opq("lam1"), lam1), (opq("lam2"), lam2), (opq("slicing"), slicing), (opq("indexing"), indexing)]
+            extra_vals = {"slicing": [[2, 3], [7], [2, 3, 4], [], [2, 3], [9, 8]], "indexing": [5, 0, 255, 300, None, 5]}
+            allobjs = [c for _, c in objs] + [lam1, lam2, slicing, indexing]
             compiled = {}
             # ---- compile history on structurally identical constructs that differ only in a Python callback:
             #      compile A; use A'; compile B; use A' again
@@ -144,9 +148,24 @@ def run(ctx):
                 # and against the interpreter it was compiled from
                 ii, _ = camp.build(opq("lam1"), lam1, v0, b"", {})
                 camp.sh.session("C17.entry", [ii, ja])
+                # the instance compiled second is its own construct's, not the first one's (identical generated source)
+                for v1 in (v0, {"items": [1, 2]}, {"items": []}):
+                    ib1, _ = camp.build(opq("compiled-lam2"), cb, v1, b"", {})
+                    ib2, _ = camp.build(opq("lam2"), lam2, v1, b"", {})
+                    camp.sh.session("C04.equiv", [ib2, ib1])
                 nt += 1
             except Exception:
                 pass
+            # ---- a failing build between two identical ones, on the list adapters
+            for (po, co), good, bad in (((opq("slicing"), slicing), [2, 3], [7]), ((opq("indexing"), indexing), 5, None)):
+                b0 = digest(allobjs)
+                i1, _ = camp.build(po, co, good, b"", {})
+                i2, _ = camp.build(po, co, bad, b"", {})
+                i3, _ = camp.build(po, co, good, b"", {})
+                i4, _ = camp.parse(po, co, b"\x01\x02\x03\x04", 0, {})
+                camp.sh.session("C17.pure", [i1, i3])
+                camp.sh.session("C17.frozen", [i3], x={"before": b0, "after": digest(allobjs)})
+                nt += 1
             # ---- history
             calls = []          # (key, index)
             seen = {}
@@ -192,6 +211,8 @@ def run(ctx):
                 elif op == "build":
                     if name.startswith("lam") or name.startswith("compiled-lam"):
                         v = {"items": [7, 8, 9][: rng.choice([1, 2, 3])]}
+                    elif name in extra_vals:
+                        v = rng.choice(extra_vals[name])
                     elif prog.get("k") == "Opaque":
                         which = int(name.split("-p")[-1]) if "-p" in name else None
                         try:
